@@ -10,6 +10,8 @@ the symbol graph, and the final graph must be the C15 closure of the recorded fa
 Worker mode:  python -m harness.c16 --worker"""
 from __future__ import annotations
 
+import gc
+import itertools
 import json
 import signal
 import subprocess
@@ -37,8 +39,10 @@ NELEM = 4
 TWINS = {"N-list": [(2, 2), (3, 2)]}
 TWIN_CLASS = 2       # index of c15.Twin in family N
 CASE_TIMEOUT_S = 2.0   # CPU-time guard per case (ITIMER_VIRTUAL: immune to machine load; a non-terminating write is CPU-bound)
-LIST_OPS = ["Assign", "AssignSelf", "IAug", "Append", "Extend", "ExtendGen", "ExtendSelf", "Insert", "SetItem", "SetSlice", "SetSliceGen"]
-SET_OPS = ["Assign", "AssignList", "AssignSelf", "IAug", "Add", "Update", "Update2"]
+VIEW_OPS_LIST = ["AssignRev", "AssignIter", "AssignChain", "AssignFilter"]
+VIEW_OPS_SET = ["AssignIter", "AssignChain", "AssignFilter"]
+LIST_OPS = VIEW_OPS_LIST + ["Assign", "AssignSelf", "IAug", "Append", "Extend", "ExtendGen", "ExtendSelf", "Insert", "SetItem", "SetSlice", "SetSliceGen"]
+SET_OPS = VIEW_OPS_SET + ["Assign", "AssignList", "AssignSelf", "IAug", "Add", "Update", "Update2"]
 
 
 def kind_of(scn: str) -> str:
@@ -167,6 +171,15 @@ def run_impl(descr) -> Dict[str, Any]:
                 getattr(owner, name)[args[0]:args[1]] = [elems[i] for i in args[2]]
             elif k == "SetSliceGen":           # the slice value is a one-shot iterator
                 getattr(owner, name)[args[0]:args[1]] = (elems[i] for i in args[2])
+            elif k == "AssignRev":             # lazy views over the field itself: Python evaluates them against the OLD contents
+                setattr(owner, name, reversed(getattr(owner, name)))
+            elif k == "AssignIter":
+                setattr(owner, name, iter(getattr(owner, name)))
+            elif k == "AssignChain":
+                setattr(owner, name, itertools.chain(getattr(owner, name), [elems[i] for i in args[0]]))
+            elif k == "AssignFilter":
+                drop = elems[args[0]]
+                setattr(owner, name, (v for v in getattr(owner, name) if v is not drop))
             elif k == "Add":
                 getattr(owner, name).add(elems[args[0]])
             elif k == "Update":
@@ -223,6 +236,102 @@ def run_ctor_alias(descr) -> Dict[str, Any]:
             "rec_p": rec(p), "rec_q": rec(q), "same_container": getattr(p, name) is getattr(q, name)}
 
 
+def run_churn(descr) -> Dict[str, Any]:
+    """fresh elements every turn: each is written into the field, the previous ones are dropped from it and die, so later elements
+    reuse their addresses (id()).  Every element that is in the field must have its own relation and inverse."""
+    famk, oc, name, ec = SCN[descr["scn"]]
+    fam = c15.families()[famk]
+    kind = fam.kind[field_id(descr["scn"])]
+    inv_name = {"U-list": "members", "U-set": "member_of"}.get(descr["scn"])
+    SymbolGraph().clear()
+    SymbolGraph()
+    owner = fam.classes[oc]("owner")
+    sizes, unrec, noinv, ids_seen, reused = [], [], [], set(), 0
+    counter = 0
+    for turn in range(descr["turns"]):
+        n_new = 1 + (turn * 7 + descr.get("salt", 0)) % 3
+        fresh = []
+        for _ in range(n_new):
+            fresh.append(fam.classes[ec](f"e{counter}"))
+            counter += 1
+        reused += sum(1 for e in fresh if id(e) in ids_seen)
+        ids_seen.update(id(e) for e in fresh)
+        how = descr["how"][turn % len(descr["how"])]
+        if how == "assign":
+            setattr(owner, name, list(fresh) if kind == "list" else set(fresh))
+        elif how == "setitem":                         # list only: keep one slot and overwrite it
+            cur = getattr(owner, name)
+            if len(cur) == 0:
+                cur.append(fresh[0])
+            else:
+                cur[0] = fresh[0]
+            del cur[1:]
+        elif how == "clear_add":
+            cur = getattr(owner, name)
+            cur.clear()
+            for e in fresh:
+                (cur.append if kind == "list" else cur.add)(e)
+        cur = list(getattr(owner, name))
+        rels = [r for r in SymbolGraph().relations() if r.source.instance is owner and r.wrapped_field.public_name == name]
+        sizes.append(len(cur))
+        unrec.append(sum(1 for e in cur if not any(r.target.instance is e for r in rels)))
+        if inv_name:
+            noinv.append(sum(1 for e in cur if not any(m is owner for m in getattr(e, inv_name))))
+        del fresh, cur, rels
+        gc.collect()
+    return {"sizes": sizes, "unrecorded": unrec, "no_inverse": noinv, "ids_reused": reused}
+
+
+def run_clone(descr) -> Dict[str, Any]:
+    """q = copy.copy(p): writes through either owner's field; who gets the relation?"""
+    import copy
+    famk, oc, name, ec = SCN[descr["scn"]]
+    fam = c15.families()[famk]
+    SymbolGraph().clear()
+    SymbolGraph()
+    elems = [fam.classes[ec](f"o{i}") for i in range(NELEM)]
+    p = fam.classes[oc]("p", **{name: [elems[i] for i in descr["init"]]})
+    q = copy.copy(p)
+    own = {"p": p, "q": q}
+    for op in descr["ops"]:
+        o = own[op[1]]
+        if op[0] == "read":
+            getattr(o, name)
+        elif op[0] == "append":
+            getattr(o, name).append(elems[op[2]])
+        elif op[0] == "assign":
+            setattr(o, name, [elems[i] for i in op[2]])
+    ident = {id(e): i for i, e in enumerate(elems)}
+
+    def rec(o):
+        return sorted({ident[id(r.target.instance)] for r in SymbolGraph().relations()
+                       if r.source.instance is o and r.wrapped_field.public_name == name})
+    return {"items": [ident[id(x)] for x in getattr(p, name)], "shared": getattr(p, name) is getattr(q, name),
+            "rec_p": rec(p), "rec_q": rec(q)}
+
+
+def clone_expect(descr):
+    """what the property asks of the writes: an element written through owner w's field is recorded for w"""
+    need = {"p": set(descr["init"]), "q": set()}
+    for op in descr["ops"]:
+        if op[0] == "append":
+            need[op[1]].add(op[2])
+        elif op[0] == "assign":
+            need[op[1]].update(op[2])
+    return need
+
+
+def in_clone_assign_class(descr) -> bool:
+    """K_clone_assign: a plain assignment through an owner the shared container is not bound to"""
+    bound = "p"
+    for op in descr["ops"]:
+        if op[0] in ("read", "append"):
+            bound = op[1]
+        elif op[0] == "assign" and op[1] != bound:
+            return True
+    return False
+
+
 def run_container_eq(descr) -> Dict[str, Any]:
     """K_container_eq: how two managed fields (and a managed field and a plain list) compare with == / !="""
     famk, oc, name, ec = SCN[descr["scn"]]
@@ -259,7 +368,7 @@ def run_setitem_grown(descr) -> Dict[str, Any]:
 
 
 def snippet(descr) -> str:
-    fn = {"ctor_alias": "run_ctor_alias", "container_eq": "run_container_eq", "setitem_grown": "run_setitem_grown"}.get(descr.get("kind"), "run_impl")
+    fn = {"churn": "run_churn", "clone": "run_clone", "ctor_alias": "run_ctor_alias", "container_eq": "run_container_eq", "setitem_grown": "run_setitem_grown"}.get(descr.get("kind"), "run_impl")
     return ("# PYTHONPATH=/repo/src:/repo:/verif PYTHONHASHSEED=0 /venv/bin/python\n"
             f"from harness import c16; print(c16.{fn}({descr!r}))")
 
@@ -313,6 +422,14 @@ def op_term(op) -> str:
         return f"SetItem ({args[0]})%Z {args[1]}"
     if k == "ExtendSelf":
         return "ExtendSelf"
+    if k == "AssignRev":
+        return "AssignView VRev"
+    if k == "AssignIter":
+        return "AssignView VIter"
+    if k == "AssignChain":
+        return f"AssignView (VChain {nl(args[0])})"
+    if k == "AssignFilter":
+        return f"AssignView (VFilterOut {args[0]})"
     if k == "SetSliceGen":
         return f"SetSliceIter ({args[0]})%Z ({args[1]})%Z {nl(args[2])}"
     if k == "SetSlice":
@@ -331,8 +448,13 @@ def kterm(scn) -> str:
 
 
 def model_term(d) -> str:
-    if d.get("kind") == "container_eq":
+    if d.get("kind") in ("container_eq", "churn"):
         return "SZ 0%Z"
+    if d.get("kind") == "clone":
+        w = {"p": "WP", "q": "WQ"}
+        ops = "; ".join(f"CRead {w[o[1]]}" if o[0] == "read" else f"CAppend {w[o[1]]} {o[2]}" if o[0] == "append"
+                        else f"CAssign {w[o[1]]} {nl(o[2])}" for o in d["ops"])
+        return f"clone_out {nl(d['init'])} [{ops}]"
     if d.get("kind") == "setitem_grown":   # element 1 brings the inferred element 2 (o1.anc = [o2]) unless it is there already
         inf = [2] if (d["x"] == 1 and 2 not in d["init"]) else []
         return f"setitem_then_infer_out ({d['i']})%Z {d['x']} {nl(inf)} {nl(d['init'])}"
@@ -342,7 +464,7 @@ def model_term(d) -> str:
 
 
 def spec_term(d) -> str:
-    if d.get("kind") in ("ctor_alias", "container_eq", "setitem_grown"):
+    if d.get("kind") is not None:
         return "SZ 0%Z"
     ops = [["Assign", d["init"]]] + d["ops"]
     return f"cspec_out {kterm(d['scn'])} [{'; '.join(op_term(o) for o in ops)}] []"
@@ -364,8 +486,12 @@ def gen_case(rng: core.Rng, scn: str) -> dict:
             ops.append([k, vs])
         elif k == "ExtendSelf" and sum(1 for o in ops if o[0] == "ExtendSelf") >= 2:
             ops.append(["Append", x])          # keep the lists small: at most two doublings per history
-        elif k in ("AssignSelf", "ExtendSelf"):
+        elif k in ("AssignSelf", "ExtendSelf", "AssignRev", "AssignIter"):
             ops.append([k])
+        elif k == "AssignChain":
+            ops.append([k, vs])
+        elif k == "AssignFilter":
+            ops.append([k, x])
         elif k in ("Append", "Add"):
             ops.append([k, x])
         elif k in ("Insert", "SetItem"):
@@ -381,7 +507,23 @@ def gen_cases(tier: str, seed: int) -> List[dict]:
     rng = core.Rng(seed * 1000003 + 16)
     n = 2000 if tier == "quick" else 20000
     scns = ["U-list", "U-set", "N-list", "N-set"]
-    return [gen_case(rng, scns[i % 4]) for i in range(n)]
+    out = [gen_case(rng, scns[i % 4]) for i in range(n)]
+    # element churn: fresh elements each turn, the old ones die and their addresses are reused
+    for i in range(6 if tier == "quick" else 40):
+        scn = ["U-list", "U-set", "N-list"][i % 3]
+        hows = ["assign", "clear_add"] + (["setitem"] if scn != "U-set" else [])
+        rng.shuffle(hows)
+        out.append({"kind": "churn", "scn": scn, "turns": 40, "how": hows, "salt": rng.randint(0, 2)})
+    # writes through a shallow copy of the owner (shared container)
+    for i in range(60 if tier == "quick" else 600):
+        ops = []
+        for _ in range(rng.randint(1, 4)):
+            k = rng.choice(["read", "append", "append", "assign"])
+            w = rng.choice(["p", "q"])
+            ops.append([k, w] if k == "read" else [k, w, rng.randint(0, NELEM - 1)] if k == "append"
+                       else [k, w, [rng.randint(0, NELEM - 1) for _ in range(rng.randint(0, 2))]])
+        out.append({"kind": "clone", "scn": ["U-list", "N-list"][i % 2], "init": [rng.randint(0, NELEM - 1) for _ in range(rng.randint(0, 2))], "ops": ops})
+    return out
 
 
 def corpus_cases():
@@ -417,13 +559,14 @@ def run(tier: str, seed: int, replay=None) -> int:
         "the field is written by its owner with fresh arguments (lists, sets, generators) or with itself for assignment / += / |=; "
         "the generated histories write fields whose inferences go to OTHER fields (inverse, super-property); item assignment on a transitive field (inference writes back into the written list; C16-i, fixed) is replayed from its witnesses against the model setitem_then_infer",
         "reading a managed field with == is not modelled; K_container_eq (C16-h) is replayed from its witness",
+        "a shallow copy of the owner shares the container (as plain Python does): writes through either owner's field must be recorded for that owner; K_clone_assign (plain assignment through the owner the container is not bound to, C16-j) is refuted and its generated instances must equal the model exactly",
         "elements of SET-valued fields are pairwise different under == (Python's own set semantics go by ==, the symbol graph by identity); twins are generated for list fields only",
         "item assignment with an integer index or a step-1 slice whose value is a list or a generator",
         "remove / pop / clear / del are not in the property's list of writes (the graph never retracts)",
     ]
     rep.rule = ("random histories of 1-7 operations (assignment of a fresh list/set, self-assignment, += / |=, append, extend with a list, a generator or the field itself, "
                 "insert, item assignment and slice assignment (list or generator value) with indices in -4..5, add, update with 1 or 0-3 iterables) from random initial contents given to the constructor, "
-                "on Person.member_of, Company.members, Node.a, Node.b; elements drawn with repetition from 4 objects (in the Node.a scenario objects 2 and 3 are distinct Twin objects that compare and hash equal; recording is checked per object identity); "
+                "on Person.member_of, Company.members, Node.a, Node.b; assignment of LAZY views over the field itself (reversed, iter, chain, filtering generator); churn families (40 turns of fresh elements whose predecessors die, so addresses are reused) and clone families (writes through a copy.copy of the owner); elements drawn with repetition from 4 objects (in the Node.a scenario objects 2 and 3 are distinct Twin objects that compare and hash equal; recording is checked per object identity); "
                 "non-trivial = at least one operation changes the contents; distinct = distinct (scenario, initial contents, history)")
     ok_spec, log = core.coq_make(["Base/Sx.vo", "Onto/ContainerSpec.vo", "Onto/ClosureSpec.vo"])
     rep.oblige("build:spec", ok_spec, "" if ok_spec else core.first_error(log))
@@ -474,7 +617,25 @@ def run(tier: str, seed: int, replay=None) -> int:
         kind = kind_of(scn)
         problems: List[str] = []
         model_agrees = None
-        if d.get("kind") == "container_eq":
+        if d.get("kind") == "churn":
+            rep.count(json.dumps(d), True)
+            dist["churn_ids_reused"] = dist.get("churn_ids_reused", 0) + im["ids_reused"]
+            if any(im["unrecorded"]) or any(im["no_inverse"]):
+                problems.append(f"fresh elements written into the field without their relation / inverse (per turn: unrecorded {im['unrecorded']}, "
+                                f"no inverse {im['no_inverse']}); {im['ids_reused']} of the fresh elements reused the address of a dead one")
+            model_agrees = False           # C16_writes: every element of the field is recorded, whatever its address
+        elif d.get("kind") == "clone":
+            rep.count(json.dumps(d), True)
+            need = clone_expect(d)
+            miss = {w: sorted(need[w] - set(im["rec_" + w])) for w in ("p", "q")}
+            if miss["p"] or miss["q"]:
+                problems.append(f"elements written through an owner's field but not recorded for that owner: {miss} (recorded: p {im['rec_p']}, q {im['rec_q']})")
+            if model_ok:
+                model_agrees = (mo[0] == im["items"] and sorted(set(mo[1])) == im["rec_p"] and sorted(set(mo[2])) == im["rec_q"])
+                if not problems and not model_agrees:
+                    mism += 1
+                    rep.oblige("correspondence:model", False, f"clone model differs from the implementation on {json.dumps(d)}: model {mo} impl {im}")
+        elif d.get("kind") == "container_eq":
             rep.count(json.dumps(d), True)
             if im["obs"] != im["python"]:
                 problems.append(f"[p.f == q.f, p.f != q.f, p.f == plain list of p's elements, p.f == plain list of q's elements] = {im['obs']}, "
@@ -542,7 +703,11 @@ def run(tier: str, seed: int, replay=None) -> int:
         if cname in open_names and model_agrees:
             rep.known(open_names[cname])
             continue
-        if (model_agrees and d.get("kind") != "ctor_alias" and in_slice_twins_class(d)
+        if (model_agrees and d.get("kind") == "clone" and in_clone_assign_class(d)
+                and any(f.cls == "K_clone_assign" for f in findings if f.kind == "open")):
+            kf_instances["K_clone_assign"] = kf_instances.get("K_clone_assign", 0) + 1     # instance of C16-j, exactly as the model predicts
+            continue
+        if (model_agrees and d.get("kind") is None and in_slice_twins_class(d)
                 and any(f.cls == "K_slice_twins" for f in findings if f.kind == "open")):
             kf_instances["K_slice_twins"] = kf_instances.get("K_slice_twins", 0) + 1   # an instance of C16-g, as the model predicts
             continue
@@ -563,7 +728,7 @@ def run(tier: str, seed: int, replay=None) -> int:
 
 def _worker():
     cases = json.loads(sys.stdin.read())
-    runners = {"ctor_alias": run_ctor_alias, "container_eq": run_container_eq, "setitem_grown": run_setitem_grown}
+    runners = {"churn": run_churn, "clone": run_clone, "ctor_alias": run_ctor_alias, "container_eq": run_container_eq, "setitem_grown": run_setitem_grown}
     out = [runners.get(c.get("kind"), run_impl)(c) for c in cases]
     sys.stdout.write(json.dumps(out))
 
